@@ -1,27 +1,39 @@
 #!/bin/bash
-# usage: overlay.sh <out.json>
+# usage: overlay.sh <out.json> [<repo-relative-path>=<replacement-file> ...]
 # Writes the build overlay for the C20 check: the export shim is added to
 # package type1 and cmd/c20/shim.go is replaced by the variant that calls it.
-# If that does not compile (an internal name changed), an empty overlay is
-# written: the check then runs on the public API only and reports
-# shim_unavailable.
-out="$1"
+# If that does not compile against the tree being checked (an internal name
+# changed), an overlay without the shim is written: the check then runs on the
+# public API only and reports shim_unavailable.  Extra arguments (as given by
+# tools/mutrun.sh) are file replacements of the tree being checked; they take
+# part in the trial compilation and are copied into the overlay.
+out="$1"; shift
 dir="$(cd "$(dirname "$0")" && pwd)"
 root="$(cd "$dir/../.." && pwd)"
 export GOFLAGS=-mod=mod GOPROXY=off GOSUMDB=off GOTOOLCHAIN=local
 case "$out" in /*) ;; *) out="$PWD/$out";; esac
 mkdir -p "$(dirname "$out")"
 tmp="$out.try"
-cat > "$tmp" <<JSON
-{"Replace": {"/repo/type1/zz_verif_export.go": "$dir/export_type1.go.txt", "$dir/shim.go": "$dir/shim_on.go.txt"}}
-JSON
+python3 - "$tmp" "$out.noshim" "$dir" "$@" <<'PY'
+import json, os, sys
+tmp, noshim, d = sys.argv[1:4]
+extra = {}
+for a in sys.argv[4:]:
+    rel, f = a.split("=", 1)
+    extra["/repo/" + rel] = os.path.abspath(f)
+withshim = dict(extra)
+withshim["/repo/type1/zz_verif_export.go"] = d + "/export_type1.go.txt"
+withshim[d + "/shim.go"] = d + "/shim_on.go.txt"
+json.dump({"Replace": withshim}, open(tmp, "w"), indent=1)
+json.dump({"Replace": extra}, open(noshim, "w"), indent=1)
+PY
 cd "$root" || exit 1
 if go build -overlay "$tmp" -o /dev/null ./cmd/c20 >"$out.trylog" 2>&1; then
-  mv "$tmp" "$out"
+  mv "$tmp" "$out"; rm -f "$out.noshim"
 else
   echo "export shim does not compile; falling back to the public API" >&2
   cat "$out.trylog" >&2
-  echo '{"Replace": {}}' > "$out"
-  rm -f "$tmp"
+  mv "$out.noshim" "$out"; rm -f "$tmp"
 fi
+rm -f "$out.trylog"
 exit 0
